@@ -160,6 +160,117 @@ class BlockRule2:
         return np.array(r) if i % 2 == 0 else r
 
 
+# ------------------------------------------------------------------ dressings of the user's callable, input layouts
+SIG_DRESS = ['starargs', 'nrest', 'kwopts', 'defaults', 'partial', 'method', 'lambda', 'sub:BaseRule']
+# return forms the unchanged library accepts: 1D iterates the result (zip) -> any iterable, also a generator;
+# 2D assigns it into the np.ix_ selection -> nested list / tuple / ndarray (any dtype that casts), not a generator.
+# 'retshared' returns the same preallocated buffer on every call (a common NumPy callback idiom; fine because the library
+# writes each block back before the next call); 'retview' (2D) returns a view of the argument block.
+RET_DRESS_1D = ['rettuple', 'retlist', 'retnp', 'retnpdtype', 'retgen', 'retshared']
+RET_DRESS_2D = ['rettuple', 'retlist', 'retnp', 'retnpdtype', 'retshared', 'retview']
+LAYOUTS = ['fortran', 'transposed', 'negstride', 'strided']
+
+
+def _other_dtype(a):
+    a = np.asarray(a)
+    return np.int64 if a.dtype.kind == 'f' else np.float64
+
+
+def dress_block(f, how):
+    """f: a block rule taking (block, timestep) positionally.  Returns a callable with the same behaviour and the
+    shape / return form named by `how` (None = f itself).  Applied OUTERMOST (around the logging twin)."""
+    if not how:
+        return f
+    if how.startswith('ret'):
+        shared = {}
+
+        def converted(block_arg, step_arg):
+            v = f(block_arg, step_arg)
+            if isinstance(v, np.ndarray) and v is block_arg:
+                v = v.copy()
+            if how == 'rettuple':
+                a = np.asarray(v)
+                return tuple(a.tolist()) if a.ndim == 1 else tuple(tuple(r) for r in a.tolist())
+            if how == 'retlist':
+                return np.asarray(v).tolist()
+            if how == 'retnp':
+                return np.asarray(v)
+            if how == 'retnpdtype':
+                return np.asarray(v).astype(_other_dtype(v))
+            if how == 'retgen':
+                return (x for x in list(v))
+            if how == 'retshared':
+                a = np.asarray(v)
+                buf = shared.get(a.shape)
+                if buf is None or buf.dtype != a.dtype:
+                    buf = shared[a.shape] = np.empty_like(a)
+                buf[...] = a
+                return buf
+            if how == 'retview':
+                a = np.asarray(v)
+                return a[::-1, ::-1][::-1, ::-1]          # a doubly reversed (non-contiguous) view
+            raise ValueError(how)
+        return converted
+    if how == 'starargs':
+        def g(*args):
+            return f(*args)
+        return g
+    if how == 'nrest':
+        def g(first_arg, *rest):
+            return f(first_arg, *rest)
+        return g
+    if how == 'kwopts':
+        def g(block_arg, step_arg, **opts):
+            return f(block_arg, step_arg)
+        return g
+    if how == 'defaults':
+        def g(block_arg, step_arg=None, scale=1):
+            return f(block_arg, step_arg)
+        return g
+    if how == 'partial':
+        import functools
+        return functools.partial(f)
+    if how == 'lambda':
+        return lambda *a: f(*a)
+    if how == 'method':
+        class Holder:
+            def apply(self, block_arg, step_arg):
+                return f(block_arg, step_arg)
+        return Holder().apply
+    if how == 'sub:BaseRule':
+        import cellpylib as cpl            # the tree under test
+        class UserBlockRule(cpl.BaseRule):
+            def __call__(self, block_arg, step_arg):
+                return f(block_arg, step_arg)
+        return UserBlockRule()
+    raise ValueError('unknown dressing %r' % (how,))
+
+
+def lay_out(a, how):
+    """an array equal to `a` with the memory layout named by `how` (None = C-contiguous as built)"""
+    if not how:
+        return a
+    if how == 'fortran':
+        return np.asfortranarray(a)
+    if how == 'transposed':                      # a transposed view of storage built the other way round
+        perm = list(range(a.ndim))
+        perm[-1], perm[-2] = perm[-2], perm[-1]
+        return np.ascontiguousarray(a.transpose(perm)).transpose(perm)
+    if how == 'negstride':                       # negative strides on the cell axes
+        if a.ndim == 2:
+            return np.ascontiguousarray(a[:, ::-1])[:, ::-1]
+        return np.ascontiguousarray(a[:, ::-1, ::-1])[:, ::-1, ::-1]
+    if how == 'strided':                         # every second cell of a longer / larger array
+        if a.ndim == 2:
+            big = np.zeros((a.shape[0], 2 * a.shape[1] + 1), dtype=a.dtype)
+            big[:, 1::2] = a
+            return big[:, 1::2]
+        big = np.zeros((a.shape[0], 2 * a.shape[1] + 1, 2 * a.shape[2] + 1), dtype=a.dtype)
+        big[:, 1::2, 1::2] = a
+        return big[:, 1::2, 1::2]
+    raise ValueError('unknown layout %r' % (how,))
+
+
 # ------------------------------------------------------------------ generators
 def _pick(rng, dtype):
     """one state of the dtype: mostly small, sometimes extreme / not representable as a double"""
@@ -432,6 +543,55 @@ def generate(rng, tier):
            'rule': {'fam': 'rev', 'perm': True}}
     yield {'kind': '2d/b0', 'dim': 2, 'dtype': 'int64', 'hist': _hist2(rng, 1, 2, 2), 'b1': 2, 'b2': 0, 'T': 2,
            'rule': {'fam': 'rev', 'perm': True}}
+    # ---- dressed callables (signature shapes, wrapper objects, return forms), dressing outermost;
+    #      odd and even steps (T >= 3), histories 1..2
+    small = ['int64', 'int32', 'uint8', 'float64']
+    reps = 4 if not thorough else 10
+    for how in SIG_DRESS + RET_DRESS_1D:
+        for _ in range(reps):
+            b, m, T, H = rng.randint(1, 4), rng.randint(2, 4), rng.randint(3, 5), rng.choice([1, 2])
+            dt = rng.choice(small)
+            hist = [[rng.randint(0, 9) for _ in range(m * b)] for _ in range(H - 1)] + [rng.sample(range(1, 120), m * b)]
+            spec = rng.choice([{'fam': 'rev', 'perm': True}, {'fam': 'rot', 'k': rng.randint(1, b), 'perm': True},
+                               {'fam': 'rott', 'perm': True},
+                               {'fam': 'script', 'perm': False,
+                                'vs': [[(i * 10 + j) % 100 for j in range(b)] for i in range(m * (T - 1))]}])
+            yield {'kind': 'dress/%s/1d' % how, 'dim': 1, 'dtype': dt, 'hist': hist, 'b': b, 'T': T, 'rule': spec,
+                   'dress': how, 'layout': rng.choice([None, None] + LAYOUTS)}
+    for how in SIG_DRESS + RET_DRESS_2D:
+        for _ in range(reps):
+            b1, b2, m1, m2 = rng.randint(1, 3), rng.randint(1, 3), rng.randint(1, 3), rng.randint(2, 3)
+            T, H = rng.randint(3, 5), rng.choice([1, 2])
+            dt = rng.choice(small)
+            R, C = m1 * b1, m2 * b2
+            vals = rng.sample(range(1, 120), R * C)
+            hist = [[[rng.randint(0, 9) for _ in range(C)] for _ in range(R)] for _ in range(H - 1)] + \
+                   [[vals[i * C:(i + 1) * C] for i in range(R)]]
+            spec = rng.choice([{'fam': 'rev', 'perm': True},
+                               {'fam': 'roll', 'k1': rng.randint(0, b1), 'k2': rng.randint(1, b2), 'perm': True},
+                               {'fam': 'rollt', 'perm': True},
+                               {'fam': 'script', 'perm': False,
+                                'vs': [_shape(b1, b2, 'uint8', 20 * i) for i in range(m1 * m2 * (T - 1))]}])
+            if spec['fam'] != 'script' and not how.startswith('ret'):
+                spec['mode'] = rng.choice(['new', 'inplace'])
+            yield {'kind': 'dress/%s/2d' % how, 'dim': 2, 'dtype': dt, 'hist': hist, 'b1': b1, 'b2': b2, 'T': T,
+                   'rule': spec, 'dress': how, 'layout': rng.choice([None, None] + LAYOUTS)}
+    # ---- non-contiguous input layouts: 1D (strided view of a longer array, negative strides, Fortran, transposed view)
+    #      and 2D (the same, over the two cell axes)
+    for lay in LAYOUTS:
+        for _ in range(5 if not thorough else 20):
+            dt = rng.choice(DT_POOL)
+            b, m, T, H = rng.randint(1, 4), rng.randint(1, 4), rng.randint(2, 5), rng.choice([1, 2, 3])
+            hist = _hist1(rng, H, m * b, dtype=dt)
+            kind, spec, h2 = rng.choice(list(_rules1(rng, b, m, T, hist, dt)))
+            yield {'kind': 'layout/%s/1d' % lay, 'dim': 1, 'dtype': dt, 'hist': h2 or hist, 'b': b, 'T': T, 'rule': spec,
+                   'layout': lay}
+            b1, b2, m1, m2 = rng.randint(1, 3), rng.randint(1, 3), rng.randint(1, 3), rng.randint(1, 3)
+            T, H = rng.randint(2, 5), rng.choice([1, 1, 2])
+            hist = _hist2(rng, H, m1 * b1, m2 * b2, dtype=dt)
+            kind, spec, h2 = rng.choice(list(_rules2(rng, b1, b2, m1, m2, T, hist, dt)))
+            yield {'kind': 'layout/%s/2d' % lay, 'dim': 2, 'dtype': dt, 'hist': h2 or hist, 'b1': b1, 'b2': b2, 'T': T,
+                   'rule': spec, 'layout': lay}
     # ---- random larger ones
     n_rand = 150 if not thorough else 2500
     for _ in range(n_rand):
@@ -467,13 +627,15 @@ def run_impl(c):
 
     def build(x):
         return [build(y) for y in x] if isinstance(x, list) else dec(x, dt)
-    ca = np.array(build(c['hist']), dtype=_np_dtype(dt))
+    ca = lay_out(np.array(build(c['hist']), dtype=_np_dtype(dt)), c.get('layout'))
     if c['dim'] == 1:
         rule = BlockRule1(c['rule'])
-        r = call_impl(lambda: cpl.evolve_block(ca, block_size=c['b'], timesteps=c['T'], apply_rule=rule))
+        fn = dress_block(rule, c.get('dress'))
+        r = call_impl(lambda: cpl.evolve_block(ca, block_size=c['b'], timesteps=c['T'], apply_rule=fn))
     else:
         rule = BlockRule2(c['rule'])
-        r = call_impl(lambda: cpl.evolve2d_block(ca, block_size=(c['b1'], c['b2']), timesteps=c['T'], apply_rule=rule))
+        fn = dress_block(rule, c.get('dress'))
+        r = call_impl(lambda: cpl.evolve2d_block(ca, block_size=(c['b1'], c['b2']), timesteps=c['T'], apply_rule=fn))
     if r[0] == 'ok':
         out = np.asarray(r[1])
         return ['ok', {'hist': _encode_array(out), 'log': rule.log, 'rets': rule.rets, 'dtype': str(out.dtype)}]
@@ -594,6 +756,10 @@ def oracle(c, obs):
 
 
 def shrink(c):
+    if c.get('dress'):
+        yield dict(c, dress=None)
+    if c.get('layout'):
+        yield dict(c, layout=None)
     if c['T'] > 1:
         yield dict(c, T=c['T'] - 1)
     if len(c['hist']) > 1:
